@@ -95,6 +95,27 @@ func checkTrie(rp *reporter, idx int) {
 				checkTampers(rp, idx, c, im, p, q.k, rng, r.Quick() == false)
 			}
 		}
+		// batches: keys proven into one shared proof set
+		if len(c.Items) > 0 {
+			brng := lib.Rng("C10/batch/"+im.name, uint64(idx))
+			for b := 0; b < 3; b++ {
+				var ks []*big.Int
+				if b == 0 && len(c.Items) <= 12 {
+					for _, it := range c.Items { // every leaf, in key order
+						ks = append(ks, it.K)
+					}
+				} else {
+					for _, i := range brng.Perm(len(qs))[:min(len(qs), 2+brng.IntN(5))] {
+						ks = append(ks, qs[i].k)
+					}
+					for _, i := range brng.Perm(len(c.Items))[:min(len(c.Items), 1+brng.IntN(4))] {
+						ks = append(ks, c.Items[i].K)
+					}
+					brng.Shuffle(len(ks), func(i, j int) { ks[i], ks[j] = ks[j], ks[i] })
+				}
+				checkBatch(rp, idx, c, im, ks)
+			}
+		}
 		if !c.Poseidon {
 			checkRanges(rp, idx, c, im, lib.Rng("C10/range/"+im.name, uint64(idx)))
 		}
@@ -124,6 +145,9 @@ func checkTrie(rp *reporter, idx int) {
 	r.Count("tries", 1)
 	if c.Twins {
 		r.Count("tries.with_twin_leaves(identical sibling subtrees)", 1)
+	}
+	if c.Cousins {
+		r.Count("tries.with_equal_subtrees_at_different_positions", 1)
 	}
 	switch len(c.Items) {
 	case 0:
